@@ -1,16 +1,58 @@
 import PyYetiVerif.Model.Rainflow
+import PyYetiVerif.Model.RainflowEntry
 /-! Line protocol for C05.
-request : `rf  v0 v1 …`  (integers)  → rainflow with offsets
-          `rf1 v0 v1 …`              → variant without offsets
-reply   : `rng sum full s e;rng sum full s e;…`   (rf)
-          `rng sum full;…`                          (rf1)
-          `bad-op` for anything else (incl. non-integers). -/
-open PyYetiVerif.Rainflow
+request : `rf  v0 v1 …`  (integers)  → tidy model, rainflow with offsets
+          `rf1 v0 v1 …`              → tidy model, variant without offsets
+          (IEEE doubles are given as their 64-bit patterns in decimal)
+          `me <c|py> <g> <safe> <shape…> | <bits…>` → entry MODEL (`g` ∈ 0 1 -, `-` = omitted; `safe` ∈ 0 1:
+                                             does the dtype cast safely to float64)
+          `mw <availc> <g> <up> <safe> <shape…> | <bits…>` → wrapper MODEL (`g`,`up` ∈ 0 1 -)
+reply   : `rng sum full s e;…` (rf) / `rng sum full;…` (rf1)
+          `value-error` | `type-error` | `internal` | `table R` | `tables R|O` | `frame C|R` | `frames C|R|C|O`
+            with R = `b b b;b b b;…` (bit patterns), O = `s e;s e;…`, C = `name,name,…`
+          `bad-op` for anything else. -/
+open PyYetiVerif.Rainflow PyYetiVerif.RainflowImp PyYetiVerif.RainflowEntry
+
+instance : Ops Float where
+  decLt := inferInstance
+  abs := Float.abs
+  half := (· / 2)
+  c05 := 0.5
+  c1 := 1.0
 
 def parseInts (ws : List String) : Option (List Int) := ws.mapM String.toInt?
 
 def fmtCyc (c : Cyc Int) : String :=
   s!"{c.rng} {c.sum} {if c.full then 1 else 0} {c.s} {c.e}"
+
+def parseNd (ws : List String) : Option (Nd Float) :=
+  match ws.span (· ≠ "|") with
+  | (sh, _ :: dat) => do
+      let shape ← sh.mapM String.toNat?
+      let bits ← dat.mapM String.toNat?
+      pure { shape := shape, data := bits.map fun b => Float.ofBits (UInt64.ofNat b) }
+  | _ => none
+
+def parseOpt : String → Option (Option Bool)
+  | "0" => some (some false)
+  | "1" => some (some true)
+  | "-" => some none
+  | _ => none
+
+def fmtRows (r : List (List Float)) : String :=
+  ";".intercalate (r.map fun row => " ".intercalate (row.map fun x => toString x.toBits.toNat))
+def fmtOs (r : List (List Int)) : String :=
+  ";".intercalate (r.map fun row => " ".intercalate (row.map toString))
+
+def fmtOut : Except PyErr (Out Float) → String
+  | .error .valueError => "value-error"
+  | .error .typeError => "type-error"
+  | .error .internal => "internal"
+  | .ok (.table rf) => "table " ++ fmtRows rf
+  | .ok (.tables rf os) => "tables " ++ fmtRows rf ++ "|" ++ fmtOs os
+  | .ok (.frame c rf) => "frame " ++ ",".intercalate c ++ "|" ++ fmtRows rf
+  | .ok (.frames c rf oc os) =>
+      "frames " ++ ",".intercalate c ++ "|" ++ fmtRows rf ++ "|" ++ ",".intercalate oc ++ "|" ++ fmtOs os
 
 def answer (line : String) : String :=
   match (line.splitOn " ").filter (· ≠ "") with
@@ -25,6 +67,16 @@ def answer (line : String) : String :=
               fun (r, s, f) => s!"{r} {s} {if f then 1 else 0}")
           | none => "value-error"
       | none => "bad-op"
+  | "me" :: i :: g :: sf :: ws =>
+      match (if i = "c" then some Impl.c_rain else if i = "py" then some Impl.py_rain else none),
+          parseOpt g, parseOpt sf, parseNd ws with
+      | some i, some g, some (some sf), some nd => fmtOut (implEntry i { nd with safe := sf } g)
+      | _, _, _, _ => "bad-op"
+  | "mw" :: a :: g :: up :: sf :: ws =>
+      match parseOpt a, parseOpt g, parseOpt up, parseOpt sf, parseNd ws with
+      | some (some a), some g, some up, some (some sf), some nd =>
+          fmtOut (wrapper (fun i => if i = Impl.c_rain then a else true) { nd with safe := sf } g up)
+      | _, _, _, _, _ => "bad-op"
   | _ => "bad-op"
 
 partial def loop (h : IO.FS.Stream) (out : IO.FS.Stream) : IO Unit := do
